@@ -211,6 +211,7 @@ class Run:
             if why:
                 rec["_why"] = sorted(why)
                 bad.append(rec)
+        self._selftest(module, obs, verdicts, relevant, cfg, nontrivial, vmode, vsize)
         if not bad:
             return
         vf.log("%d records rejected by TLC; re-executing them in fresh workers" % len(bad))
@@ -224,6 +225,52 @@ class Run:
                 continue
             path = write_replay(self.prop, family, module, rec)
             self.violations.append((path, rec["_why"]))
+
+    def _selftest(self, module, obs, verdicts, relevant, cfg, nontrivial, vmode, vsize):
+        """binding self-test, once per trace module and run: the observations of accepted records are exchanged between
+        records (each case keeps its id, gets another case's observation) and TLC must reject at least one of them --
+        otherwise the trace specification does not constrain what was observed and nothing it accepts means anything"""
+        done = self.extra.setdefault("binding_selftest", {})
+        if module in done:
+            return
+        pool = []
+        for rec in iter_ndjson(obs):
+            v = verdicts[rec["id"]]
+            if filter_why(v["why"], relevant) or v.get("skip") or "died" in rec.get("obs", {}):
+                continue
+            if nontrivial is not None and not nontrivial(rec):
+                continue
+            o = json.dumps(rec["obs"], sort_keys=True)
+            if all(o != p[1] for p in pool):
+                pool.append((rec, o))
+            if len(pool) >= 12:
+                break
+        if len(pool) < 2:
+            return
+        swapped = []
+        for i, (rec, _) in enumerate(pool):
+            other = pool[(i + 1) % len(pool)][0]
+            r = {k: v for k, v in rec.items() if k != "obs"}
+            r["obs"] = other["obs"]
+            r["id"] = i + 1
+            swapped.append(r)
+        path = os.path.join(vf.scratch(), "selftest_%s.ndjson" % module)
+        vf.write_ndjson(path, swapped)
+        saved = (self.records, self.states, self.transitions)
+        try:
+            v2 = self.validate(module, path, cfg=cfg, mode=vmode, size=vsize, chunks=1)
+        except vf.Infra as e:
+            # an exchanged observation can be outside what the trace specification can even evaluate: that is a rejection
+            done[module] = dict(exchanged=len(swapped), rejected="TLC could not evaluate the exchanged records")
+            self.records, self.states, self.transitions = saved
+            return
+        self.records, self.states, self.transitions = saved
+        rejected = sum(1 for r in swapped if v2[r["id"]]["why"])
+        done[module] = dict(exchanged=len(swapped), rejected=rejected)
+        vf.log("binding self-test %s: %d of %d exchanged observations rejected" % (module, rejected, len(swapped)))
+        if rejected == 0:
+            raise vf.Infra("binding self-test: TLC accepted %d records whose observations had been exchanged (%s constrains nothing)"
+                           % (len(swapped), module))
 
     def _confirm(self, family, module, bad, relevant, cfg, race, vmode, vsize):
         cases = os.path.join(vf.scratch(), "confirm_%s_%d.ndjson" % (family, len(self.model) + len(bad)))
